@@ -17,6 +17,46 @@ func (c *runCtx) obsCase(kind string, x []byte, limit uint32) {
 	if !c.mine(x, []byte(strconv.Itoa(int(limit)))) {
 		return
 	}
+	c.obsBody(kind, x, limit)
+}
+
+// sameNameHistories: several nodes of the tree carry the same type string (json / har, quicktime / mqv, the root /
+// aaf, ...).  Inputs that end on such nodes are detected one after the other in one process, in both orders: the
+// result of each is the walk of that input, whatever was detected before (run by every shard: a handful of cases).
+func (c *runCtx) sameNameHistories(seeds []seed) {
+	count := map[string]int{}
+	for _, n := range c.nodes {
+		count[n.MIME]++
+	}
+	var pick []seed
+	perName := map[string]int{}
+	for _, s := range seeds {
+		if len(s.data) == 0 || len(s.data) > 1<<16 {
+			continue
+		}
+		m, pan := detectAt(s.data, 3072)
+		if pan != nil || m == nil {
+			continue
+		}
+		key := bareType(m.String()) + m.Extension()
+		if count[bareType(m.String())] > 1 && perName[key] < 2 {
+			perName[key]++
+			pick = append(pick, s)
+		}
+	}
+	for pass := 0; pass < 2; pass++ {
+		for i := range pick {
+			s := pick[i]
+			if pass == 1 {
+				s = pick[len(pick)-1-i]
+			}
+			c.obsBody("same-name-"+s.kind, s.data, 3072)
+			c.obsBody("same-name-"+s.kind, s.data, 0)
+		}
+	}
+}
+
+func (c *runCtx) obsBody(kind string, x []byte, limit uint32) {
 	hdr := header(x, limit)
 	c.watch(fmt.Sprintf("kind=%s limit=%d input=%s", kind, limit, hx(x)))
 	vec, same := c.verdictVector(hdr, limit)
@@ -129,6 +169,7 @@ func runDetStream(c *runCtx) {
 		dense = 600
 	}
 	c.stats.Extra["seeds"] = len(seeds)
+	c.sameNameHistories(seeds)
 	for _, s := range seeds {
 		for _, k := range cutPoints(len(s.data), dense) {
 			x := s.data[:k]
